@@ -32,3 +32,123 @@ def blake2b(outlen, key, msg, salt=b"", person=b""):
 
 def sha512(msg):
     return hashlib.sha512(msg).digest()
+
+# ---------------------------------------------------------------- Salsa20 / XSalsa20 / secretbox
+M32 = 0xffffffff
+
+
+def _rotl(x, n):
+    return ((x << n) & M32) | (x >> (32 - n))
+
+
+def _salsa_rounds(x):
+    x = list(x)
+    def qr(a, b, c, d):
+        x[b] ^= _rotl((x[a] + x[d]) & M32, 7)
+        x[c] ^= _rotl((x[b] + x[a]) & M32, 9)
+        x[d] ^= _rotl((x[c] + x[b]) & M32, 13)
+        x[a] ^= _rotl((x[d] + x[c]) & M32, 18)
+    for _ in range(10):
+        qr(0, 4, 8, 12); qr(5, 9, 13, 1); qr(10, 14, 2, 6); qr(15, 3, 7, 11)
+        qr(0, 1, 2, 3); qr(5, 6, 7, 4); qr(10, 11, 8, 9); qr(15, 12, 13, 14)
+    return x
+
+
+SIGMA = [0x61707865, 0x3320646e, 0x79622d32, 0x6b206574]
+
+
+def _words(b):
+    return [int.from_bytes(b[i:i + 4], "little") for i in range(0, len(b), 4)]
+
+
+def _bytes(ws):
+    return b"".join(w.to_bytes(4, "little") for w in ws)
+
+
+def hsalsa20(key, inp, c=None):
+    c = _words(c) if c else SIGMA
+    k, n = _words(key), _words(inp)
+    x = [c[0], k[0], k[1], k[2], k[3], c[1], n[0], n[1], n[2], n[3], c[2], k[4], k[5], k[6], k[7], c[3]]
+    z = _salsa_rounds(x)
+    return _bytes([z[0], z[5], z[10], z[15], z[6], z[7], z[8], z[9]])
+
+
+def salsa20_block(key, nonce8, ctr):
+    k, n = _words(key), _words(nonce8)
+    x = [SIGMA[0], k[0], k[1], k[2], k[3], SIGMA[1], n[0], n[1], ctr & M32, (ctr >> 32) & M32, SIGMA[2], k[4], k[5], k[6], k[7], SIGMA[3]]
+    z = _salsa_rounds(x)
+    return _bytes([(a + b) & M32 for a, b in zip(x, z)])
+
+
+def xsalsa20_stream(key, nonce24, n):
+    sub = hsalsa20(key, nonce24[:16])
+    out = b""
+    ctr = 0
+    while len(out) < n:
+        out += salsa20_block(sub, nonce24[16:], ctr)
+        ctr += 1
+    return out[:n]
+
+
+def xor(a, b):
+    return bytes(x ^ y for x, y in zip(a, b))
+
+
+def secretbox(key, nonce, msg):
+    ks = xsalsa20_stream(key, nonce, 32 + len(msg))
+    c = xor(msg, ks[32:])
+    return poly1305(ks[:32], c) + c
+
+
+# ---------------------------------------------------------------- X25519
+P25519 = (1 << 255) - 19
+
+
+def x25519(k, u):
+    kk = bytearray(k)
+    kk[0] &= 248; kk[31] &= 127; kk[31] |= 64
+    kn = int.from_bytes(kk, "little")
+    un = int.from_bytes(u, "little") & ((1 << 255) - 1)
+    x1, x2, z2, x3, z3, swap = un, 1, 0, un, 1, 0
+    for t in range(254, -1, -1):
+        kt = (kn >> t) & 1
+        swap ^= kt
+        if swap:
+            x2, x3, z2, z3 = x3, x2, z3, z2
+        swap = kt
+        A = (x2 + z2) % P25519; AA = A * A % P25519
+        B = (x2 - z2) % P25519; BB = B * B % P25519
+        E = (AA - BB) % P25519
+        C = (x3 + z3) % P25519; D = (x3 - z3) % P25519
+        DA = D * A % P25519; CB = C * B % P25519
+        x3 = (DA + CB) ** 2 % P25519
+        z3 = x1 * (DA - CB) ** 2 % P25519
+        x2 = AA * BB % P25519
+        z2 = E * (AA + 121665 * E) % P25519
+    if swap:
+        x2, x3, z2, z3 = x3, x2, z3, z2
+    return (x2 * pow(z2, P25519 - 2, P25519) % P25519).to_bytes(32, "little")
+
+
+BASE = (9).to_bytes(32, "little")
+
+
+def x25519_base(k):
+    return x25519(k, BASE)
+
+
+def box_beforenm(pk, sk):
+    return hsalsa20(x25519(sk, pk), b"\x00" * 16)
+
+
+def box(pk, sk, nonce, msg):
+    return secretbox(box_beforenm(pk, sk), nonce, msg)
+
+
+def seal_nonce(epk, rpk):
+    return blake2b(24, b"", epk + rpk)
+
+
+def box_seal(rpk, esk, msg):
+    epk = x25519_base(esk)
+    return epk + box(rpk, esk, seal_nonce(epk, rpk), msg)
